@@ -74,7 +74,7 @@ type Check struct {
 
 var registry = map[string]*Check{}
 
-func Register(c *Check) { registry[c.ID] = c }
+func Register(c *Check)       { registry[c.ID] = c }
 func Lookup(id string) *Check { return registry[id] }
 func IDs() []string {
 	var ids []string
@@ -150,8 +150,8 @@ func (r *Rand) Intn(n int) int {
 	}
 	return int(r.U64() % uint64(n))
 }
-func (r *Rand) Bool() bool         { return r.U64()&1 == 1 }
-func (r *Rand) Chance(p int) bool  { return r.Intn(100) < p }
+func (r *Rand) Bool() bool          { return r.U64()&1 == 1 }
+func (r *Rand) Chance(p int) bool   { return r.Intn(100) < p }
 func Pick[T any](r *Rand, xs []T) T { return xs[r.Intn(len(xs))] }
 func (r *Rand) Perm(n int) []int {
 	p := make([]int, n)
@@ -353,6 +353,7 @@ type Agg struct {
 	Violations   []Result
 	violSeen     map[string]bool
 	InconclKinds map[string]int64
+	SkipKinds    map[string]int64
 	cases        int
 	Extra        map[string]any
 }
@@ -380,6 +381,14 @@ func (a *Agg) add(r *Result, known *Known, caseIdx int) {
 	}
 	if r.Verdict == Skip {
 		a.Skipped++
+		if a.SkipKinds == nil {
+			a.SkipKinds = map[string]int64{}
+		}
+		k := r.Kind
+		if i := strings.IndexAny(k, ":("); i > 0 {
+			k = k[:i]
+		}
+		a.SkipKinds[k]++
 		return
 	}
 	a.Evaluations++
@@ -737,6 +746,9 @@ func finish(a *Agg, known *Known, root string, wall time.Duration) int {
 	}
 	if len(a.InconclKinds) > 0 {
 		cov["inconclusive_reasons"] = a.InconclKinds
+	}
+	if len(a.SkipKinds) > 0 {
+		cov["skipped_reasons"] = a.SkipKinds
 	}
 	for g, s := range a.tagSets {
 		cov["distinct_"+g] = len(s)
